@@ -100,6 +100,12 @@ pub fn run(mut config: Config) -> ::anyhow::Result<()> {
             let mut counter = 0usize;
 
             loop {
+                // Verification hook: fault injection point
+                #[cfg(aquatic_verif)]
+                if aquatic_common::verif::fault("udp_cleaning", 0) {
+                    return Ok(());
+                }
+
                 sleep(Duration::from_secs(
                     config.cleaning.torrent_cleaning_interval,
                 ));
@@ -173,6 +179,12 @@ pub fn run(mut config: Config) -> ::anyhow::Result<()> {
             .name("signals".into())
             .spawn(move || {
                 for signal in &mut signals {
+                    // Verification hook: fault injection point
+                    #[cfg(aquatic_verif)]
+                    if aquatic_common::verif::fault("udp_signals", 0) {
+                        return Ok(());
+                    }
+
                     match signal {
                         SIGUSR1 => {
                             let _ = update_access_list(&config.access_list, &state.access_list);
